@@ -1,4 +1,5 @@
 #include "wire.h"
+#include "simsched.h"
 #include <algorithm>
 #include <sstream>
 #include <cstdarg>
@@ -29,6 +30,7 @@ WireCfg draw_wire(Rng &r, int transport) {
 // ------------------------------------------------------------ FILE* writer
 static ssize_t ck_write(void *cookie, const char *buf, size_t n) {
     WriteLog *l = (WriteLog *) cookie;
+    sim_yield(Y_APP);        // a write call reaching the store is a scheduling point (no-op outside the scheduler)
     l->bytes.append(buf, n);
     l->calls.push_back((uint32_t) n);
     return (ssize_t) n;      // never short: glibc treats a short cookie write as an error (measured)
@@ -52,19 +54,19 @@ StoreOutBuf::~StoreOutBuf() { flush_buf(); }
 void StoreOutBuf::flush_buf() {
     if (!cap) return;
     size_t n = (size_t) (pptr() - pbase());
-    if (n) { log->bytes.append(pbase(), n); log->calls.push_back((uint32_t) n); }
+    if (n) { sim_yield(Y_APP); log->bytes.append(pbase(), n); log->calls.push_back((uint32_t) n); }
     setp(buf.data(), buf.data() + cap);
 }
 StoreOutBuf::int_type StoreOutBuf::overflow(int_type ch) {
     flush_buf();
     if (ch != traits_type::eof()) {
         if (cap) { *pptr() = (char) ch; pbump(1); }
-        else { char c = (char) ch; log->bytes.append(&c, 1); log->calls.push_back(1); }
+        else { char c = (char) ch; sim_yield(Y_APP); log->bytes.append(&c, 1); log->calls.push_back(1); }
     }
     return traits_type::not_eof(ch);
 }
 std::streamsize StoreOutBuf::xsputn(const char *s, std::streamsize n) {
-    if (!cap) { log->bytes.append(s, (size_t) n); log->calls.push_back((uint32_t) n); return n; }
+    if (!cap) { sim_yield(Y_APP); log->bytes.append(s, (size_t) n); log->calls.push_back((uint32_t) n); return n; }
     return std::streambuf::xsputn(s, n);
 }
 int StoreOutBuf::sync() { flush_buf(); return 0; }
